@@ -203,6 +203,36 @@ class ListIter(Iter):
         return self.items[self.i:self.j]
 
 
+class OpaqueIter(Iter):
+    """an iterator over pieces of an opaque string (lines / split of a rendering): nothing is known about its items; adapters keep it
+    opaque, collecting gives an opaque vector, joining that an opaque string - so a value computed from it differs from the string itself"""
+
+    def __init__(self, term):
+        self.term = term
+
+    def clone(self):
+        return OpaqueIter(self.term)
+
+    def next(self, m, back=False):
+        raise EncoderGap('items of an opaque string (%r)' % (self.term,))
+
+    next_back = next
+
+
+def _adapter_kinds(it):
+    out = []
+    while isinstance(it, Adapter):
+        out.append(it.kind)
+        it = it.inner
+    return tuple(out)
+
+
+def opaque_source(it):
+    while isinstance(it, Adapter):
+        it = it.inner
+    return it if isinstance(it, OpaqueIter) else None
+
+
 class LinesIter(Iter):
     def __init__(self, s):
         self.s = s
@@ -597,7 +627,10 @@ def str_is_empty(m, a, ci):
 
 @reg('str::lines')
 def str_lines(m, a, ci):
-    return LinesIter(_s(m, a[0]))
+    s = _s(m, a[0])
+    if isinstance(s, OStr):
+        return OpaqueIter(('lines', s.term))
+    return LinesIter(s)
 
 
 @reg('str::chars')
@@ -1059,7 +1092,14 @@ def iter_fold(m, a, ci):
 
 @reg('Iterator::collect', 'FromIterator::from_iter')
 def iter_collect(m, a, ci):
-    xs = drain(m, get_iter(m, into_iter(m, [a[0]], ci)))
+    it0 = get_iter(m, into_iter(m, [a[0]], ci))
+    src = opaque_source(it0)
+    if src is not None:
+        d0 = head_ident(ci.dest_ty) if ci.dest_ty else 'Vec'
+        if d0 == 'String':
+            return OStr(('collected', src.term, _adapter_kinds(it0)))
+        return Opaque('collected', (src.term, _adapter_kinds(it0)))
+    xs = drain(m, it0)
     d = head_ident(ci.dest_ty) if ci.dest_ty else 'Vec'
     if d in ('Vec', 'SmallVec'):
         return Vec(xs, d)
@@ -2026,6 +2066,9 @@ def string_extend(m, a, ci):
 
 @reg('slice::join', 'slice::concat', 'Join::join')
 def slice_join(m, a, ci):
+    x0 = m.load(a[0]) if isinstance(a[0], Ref) else a[0]
+    if isinstance(x0, Opaque) and x0.tag == 'collected':
+        return OStr(('joined', x0.deps))
     g, r, n = seq_view(m, a[0])
     sep = _s(m, a[1]) if len(a) > 1 else Str(())
     out = Str(())
